@@ -68,7 +68,7 @@ theorem step_log (s : State) (i : Input) :
       intro e he
       obtain ⟨x, _, hx⟩ := List.mem_map.mp he
       rw [← hx]; trivial
-  | outboundSubstream peer sid =>
+  | outboundSubstream peer sid fb =>
     simp only [step, onOutboundSubstream]
     split <;> exact ⟨[], by simp, by simp⟩
   | substreamOpenFailure sid error =>
@@ -278,7 +278,7 @@ theorem issuedCount_snoc (s : State) (c : Ctx) (r : Rid) :
     ctxCount r (s.issued ++ [c]) = issuedCount s r + (if c.rid == r then 1 else 0) := by
   simp [issuedCount, ctxCount_snoc]
 
-theorem sub_send (s : State) (peer : Peer) (request : Payload) (opts : DialOptions)
+theorem sub_send (s : State) (peer : Peer) (request : Request) (opts : DialOptions)
     (dialAns : Except DialErr Unit) (openAns : Except SubErr Sid) (h : Sub s)
     (ha : ∀ sid, openAns = .ok sid → alFind sid s.pendingOutbound = none ∧ ∀ e ∈ s.opened, e.1 ≠ sid) :
     Sub (step s (.send peer request opts dialAns openAns)) := by
@@ -493,9 +493,9 @@ theorem sub_connectionEstablished (s : State) (peer : Peer) (openAns : Nat → E
         · exact hs.futSent
         · exact hs.respOk
 
-theorem sub_outboundSubstream (s : State) (peer : Peer) (sid : Sid) (h : Sub s)
+theorem sub_outboundSubstream (s : State) (peer : Peer) (sid : Sid) (fb : Option Nat) (h : Sub s)
     (ha : ∀ ctx, alFind sid s.pendingOutbound = some ctx → ctx.peer = peer) :
-    Sub (onOutboundSubstream s peer sid) := by
+    Sub (onOutboundSubstream s peer sid fb) := by
   simp only [onOutboundSubstream]
   split
   · exact h.congr (fun _ x => x) (fun _ => Nat.le_refl _) rfl rfl (fun _ x => x) (fun _ => Nat.le_refl _)
@@ -608,7 +608,7 @@ theorem sub_step (s : State) (i : Input) (h : Sub s) (ha : Allowed s i) : Sub (s
         (by rw [e5]; exact fun e he => mem_of_mem_take peer _ e (hrest ▸ he))
         (by intro r; simp only [dialCount_def, e5]; rw [hrest]; exact dialCount_take_le s peer r)
         (by rw [e6]; exact fun _ x => x) hl (by rw [e7]; exact fun _ x => x)
-  | outboundSubstream peer sid => exact sub_outboundSubstream s peer sid h ha
+  | outboundSubstream peer sid fb => exact sub_outboundSubstream s peer sid fb h ha
   | substreamOpenFailure sid error =>
     have hl := hl0 (by intro f p hc; cases hc)
     revert hl
